@@ -147,8 +147,10 @@ def linear_in(t, atom):
 def contains(t, atom):
     if t == atom:
         return True
-    if not isinstance(t, tuple):
+    if not isinstance(t, tuple) or not t:
         return False
+    if not isinstance(t[0], str):
+        return any(contains(x, atom) for x in t)
     if t[0] == "poly":
         return any(any(contains(x, atom) for x in m) for m, _ in t[1])
     return any(contains(x, atom) for x in t[1:] if isinstance(x, tuple))
@@ -158,7 +160,11 @@ def atoms(t, acc=None):
     """all non-arithmetic leaves/atoms occurring in t (syms, vars, flds ...)"""
     if acc is None:
         acc = set()
-    if not isinstance(t, tuple):
+    if not isinstance(t, tuple) or not t:
+        return acc
+    if not isinstance(t[0], str):
+        for x in t:
+            atoms(x, acc)
         return acc
     if t[0] == "poly":
         for m, _ in t[1]:
@@ -184,6 +190,8 @@ def subst(t, mapping):
     if not isinstance(t, tuple) or not t:
         return t
     k = t[0]
+    if not isinstance(k, str):
+        return tuple(subst(x, mapping) for x in t)
     if k == "poly":
         r = ZERO
         for m, c in t[1]:
@@ -240,7 +248,7 @@ def padd(p, i):
 def root_of(t):
     """the root symbol/var/global an lvalue or pointer term hangs off (None if unknown)"""
     while True:
-        if t[0] in ("sym", "var", "glob", "new", "call", "unk"):
+        if t[0] in ("sym", "var", "glob", "new", "obj", "call", "unk", "str"):
             return t
         if t[0] in ("idx", "fld", "addr", "cast"):
             t = t[1] if t[0] != "cast" else t[2]
@@ -252,7 +260,7 @@ def path_of(t):
     """access path as a list: [root, step, step...] where step = '.f' or '[*]'"""
     steps = []
     while True:
-        if t[0] in ("sym", "var", "glob", "new", "call", "unk", "int"):
+        if t[0] in ("sym", "var", "glob", "new", "obj", "call", "unk", "int", "str"):
             return [t] + steps[::-1]
         if t[0] == "idx":
             steps.append("[*]" if t[2] != ZERO or True else "[0]")
@@ -410,3 +418,38 @@ def show(t):
     if k == "unk":
         return "?%s" % (t[1],)
     return repr(t)
+
+
+def rewrite(t, mapping, depth=0):
+    """bottom-up rewriting to a fixpoint: children first, then look the rebuilt term up in mapping"""
+    if not isinstance(t, tuple) or not t:
+        return t
+    k = t[0]
+    if not isinstance(k, str):
+        return tuple(rewrite(x, mapping, depth) for x in t)
+    if k in ("int", "float", "str", "sym", "var", "glob", "unk"):
+        r = t
+    elif k == "poly":
+        r = ZERO
+        for m, c in t[1]:
+            prod = ("int", c)
+            for x in m:
+                prod = mul(prod, rewrite(x, mapping, depth))
+            r = add(r, prod)
+    elif k == "idx":
+        r = idx(rewrite(t[1], mapping, depth), rewrite(t[2], mapping, depth))
+    elif k == "fld":
+        r = fld(rewrite(t[1], mapping, depth), t[2])
+    elif k == "addr":
+        r = addr(rewrite(t[1], mapping, depth))
+    elif k == "op":
+        r = binop(t[1], rewrite(t[2], mapping, depth), rewrite(t[3], mapping, depth))
+    elif k in ("obj", "new", "prop", "title"):
+        r = t
+    else:
+        r = tuple(rewrite(x, mapping, depth) if isinstance(x, tuple) else x for x in t)
+    if r in mapping and depth < 8:
+        nr = mapping[r]
+        if nr != r:
+            return rewrite(nr, mapping, depth + 1)
+    return r
